@@ -19,8 +19,11 @@ def roots(t, depth=0):
     k = t[0]
     if k == 'sym':
         return {('param', t[1])}
-    if k in ('attr', 'idx'):
+    if k == 'attr':
         return roots(t[1], depth + 1)
+    if k == 'idx':
+        # an element may be (an alias of) anything stored into the container
+        return roots(t[1], depth + 1) | element_roots(t[1], depth + 1)
     if k in ('upd', 'mut'):
         return roots(t[1], depth + 1)
     if k == 'copy':
@@ -42,12 +45,14 @@ def roots(t, depth=0):
             return roots(t[3], depth + 1) | roots(t[4], depth + 1)
         return {('fresh',)}
     if k == 'elem':
-        return roots(t[1], depth + 1)
+        return roots(t[1], depth + 1) | element_roots(t[1], depth + 1)
     if k == 'call':
         f = t[1]
         # type(self) / self.__class__
         if f == 'type' and len(t[2]) == 1:
             return {('class-of', show(t[2][0]))}
+        if f == 'getattr' and t[2]:
+            return roots(t[2][0], depth + 1)
         if isinstance(f, tuple) and f[0] == 'attr' and f[2] in (
                 'values', 'items', 'keys', '__getitem__', 'get', 'sel', 'isel',
                 'squeeze', 'transpose', 'reshape', 'ravel', 'view', 'setdefault',
@@ -61,6 +66,44 @@ def roots(t, depth=0):
     if k == 'attr' and t[2] == '__class__':
         return {('class-of', show(t[1]))}
     return {('unknown',)}
+
+
+def element_roots(t, depth=0):
+    """roots of the values held by container term t"""
+    if depth > 60:
+        return set()
+    k = t[0]
+    out = set()
+    if k == 'upd' and t[2] == 'item':
+        out |= roots(t[4], depth + 1)
+        out |= element_roots(t[1], depth + 1)
+    elif k == 'upd':
+        out |= element_roots(t[1], depth + 1)
+    elif k == 'mut':
+        for a in t[3]:
+            out |= roots(a, depth + 1)
+        out |= element_roots(t[1], depth + 1)
+    elif k in ('list', 'tuple', 'set'):
+        for a in t[1]:
+            out |= roots(a, depth + 1)
+    elif k == 'dict':
+        for kk, v in t[1]:
+            out |= roots(v, depth + 1)
+    elif k == 'comp':
+        out |= roots(t[2], depth + 1)
+    elif k == 'loop':
+        out |= element_roots(t[3], depth + 1) | element_roots(t[4], depth + 1)
+    elif k == 'ite':
+        out |= element_roots(t[2], depth + 1) | element_roots(t[3], depth + 1)
+    elif k == 'call' and isinstance(t[1], tuple) and t[1][0] == 'attr' and \
+            t[1][2] in ('items', 'values', 'keys'):
+        out |= element_roots(t[1][1], depth + 1)
+    elif k == 'call' and t[1] in ('zip', 'enumerate', 'reversed', 'list', 'tuple',
+                                  'sorted'):
+        for a in t[2]:
+            out |= element_roots(a, depth + 1) | roots(a, depth + 1)
+    out.discard(('fresh',))
+    return out
 
 
 def interior(t):
@@ -93,7 +136,9 @@ def writes(it, kinds=('setattr', 'setitem', 'augassign', 'mutcall', 'delete')):
                     v[0] == 'const' and isinstance(v[1], (str, bytes)))):
                 continue       # strings are immutable: a rebinding, not a store
         else:
-            st = e['target']
+            st = e.get('base')
+            if st is None:
+                continue       # `del name`: unbinds a local, no store
         rs = roots(st)
         if st[0] == 'copy' and st[1] == 'shallow' and e['kind'] == 'setattr':
             rs = {('fresh',)}
